@@ -141,7 +141,10 @@ void generate(uint64_t seed, const Str& profile, Desc& d, bool exceptions) {
     bool emptyGroupName = (f.alphaNames && world.chance(1, 8)) || ((f.teamcity || f.junit) && world.chance(1, 12));      // shells built through the API may carry the group name ""
     for (int g = 0; g < nGroups; g++) { gnames.push_back(pickName(world, f, "G", g, true)); if (emptyGroupName && world.chance(1, 3)) gnames.back() = ""; gfiles.push_back(f.special_xml || f.special_tc ? pickName(world, f, "dir/f", g, false) + ".cpp" : sfmt("f%d.cpp", g)); }
     if ((f.junit || f.teamcity) && nGroups > 1) for (int g = 0; g < nGroups; g++) gnames[g] += sfmt("_%d", g);   // keep group names distinct
-    if ((f.junit || f.teamcity) && nGroups > 1 && world.chance(1, 6)) for (int g = 1; g < nGroups; g++) if (!gnames[g - 1].empty()) gnames[g] = gnames[g - 1] + (char)('a' + g);      // every group name continues the one before it (Net, Network, ...)
+    if ((f.junit || f.teamcity) && nGroups > 1 && world.chance(1, 6)) {      // every group name continues the one before it (Net, Network, ...)
+        if (!gnames[0].empty() && world.chance(1, 3)) gnames[0] += Str(130, 'g');      // ... and sometimes they are long: the names then agree in their first 130 characters and more
+        for (int g = 1; g < nGroups; g++) if (!gnames[g - 1].empty()) gnames[g] = gnames[g - 1] + (char)('a' + g);
+    }
     if (f.special_tc) for (int g = 0; g < nGroups; g++) if (world.chance(1, 2)) gfiles[g] = Str("d/it's[") + (char)('a' + g) + "]|x.cpp";
 
     int opLine = 1000;
